@@ -1,4 +1,4 @@
-(* Property C14 - fallible concurrent streams never swallow an error and cancel on it.  Statements about every event list accepted by the
+(* Property C14 - fallible concurrent streams never swallow an error and cancel on it (try_for_each: TTryForEach; collect into Result<Vec<_>, E>: TCollectRes).  Statements about every event list accepted by the
    acceptor of Model/CoStream.v (see Properties/C13.v for the reading). *)
 From Coq Require Import List Arith Bool.
 Import ListNotations.
@@ -7,9 +7,10 @@ Require Import CoStream CoFacts CoTake.
 (* once an error has been recorded no further source item is accepted *)
 Theorem C14_stops_taking c es s k j : run c (init c) es k = (s, None) -> residual s <> None -> step c s (ESrc (Some j)) = None.
 Proof. exact (C14_stop c es s k j). Qed.
-(* the error try_for_each reports was returned by some terminal closure future of the accepted run *)
-Theorem C14_error_is_genuine c es s k e s' : run c (init c) es k = (s, None) -> step c s (EResult (RErrV e)) = Some s' -> c_term c = TTryForEach ->
-  exists j, In (EDone 1 j (Some e)) es.
+(* the error try_for_each / collect::<Result<Vec<_>, E>>() reports was returned by some closure future of the accepted run
+   (stage 1 = the terminal closure of try_for_each, stage 0 = the map closure whose Result items are collected) *)
+Theorem C14_error_is_genuine c es s k e s' : run c (init c) es k = (s, None) -> step c s (EResult (RErrV e)) = Some s' ->
+  (c_term c = TTryForEach \/ c_term c = TCollectRes) -> exists stg j, In (EDone stg j (Some e)) es.
 Proof. exact (C14_err_genuine c es s k e s'). Qed.
 (* an Ok result: no error has been recorded and nothing is in flight ... *)
 Theorem C14_result_structured c s r s' : step c s (EResult r) = Some s' ->
@@ -20,6 +21,9 @@ Theorem C14_result_structured c s r s' : step c s (EResult r) = Some s' ->
   | TTryForEach, _ => False
   | TCollect, RVec items => length items = length (works s)
   | TCollect, _ => False
+  | TCollectRes, RVec items => residual s = None /\ length items = length (works s)
+  | TCollectRes, RErrV e => residual s = Some e
+  | TCollectRes, _ => False
   end.
 Proof. exact (C13_structured c s r s'). Qed.
 (* ... and without `take` the source was exhausted *)
